@@ -170,6 +170,11 @@ M = [
     ('C02', 'DSASignature.from_signer', 'pgpy.packet.fields', "                flen = _asn[0] & 0x7F\n                del _asn[0]\n\n            i = self.bytes_to_int(_asn[:flen])", "                flen = _asn[0] & 0x3F\n                del _asn[0]\n\n            i = self.bytes_to_int(_asn[:flen])"),
     ('C02', 'DSASignature.from_signer', 'pgpy.packet.fields', "            del sig[:llen + 1]", "            del sig[:llen]"),
     ('C02', 'DSASignature.from_signer', 'pgpy.packet.fields', "        self.r = MPI(_der_intf(sig))\n        self.s = MPI(_der_intf(sig))\n\n    def parse", "        self.s = MPI(_der_intf(sig))\n        self.r = MPI(_der_intf(sig))\n\n    def parse"),
+    ('C08', 'EdDSAPub.parse+', 'pgpy.packet.fields', "        if self.p.format != ECPointFormat.Native:\n            raise PGPIncompatibleECPointFormatError(\"Only Native format is valid for EdDSA\")", "        if self.p.format == ECPointFormat.Standard:\n            raise PGPIncompatibleECPointFormatError(\"Only Native format is valid for EdDSA\")"),
+    ('C08', 'ECDHPub.parse+', 'pgpy.packet.fields', "            raise PGPIncompatibleECPointFormatError(\"Only Standard format is valid for this curve\")\n        self.kdf.parse(packet)", "            raise PGPIncompatibleECPointFormatError(\"Only Standard format is valid for this curve\")"),
+    ('C08', 'ECDSAPub.parse+', 'pgpy.packet.fields', "        _oid.append(oidlen)\n        _oid += bytearray(packet[:oidlen])", "        _oid.append(oidlen)\n        _oid += bytearray(packet[:oidlen - 1])"),
+    ('C08', 'ECDHPub.parse+', 'pgpy.packet.fields', "        _b += self.p.to_mpibytes()\n        _b += self.kdf.__bytearray__()", "        _b += self.kdf.__bytearray__()\n        _b += self.p.to_mpibytes()"),
+    ('C08', 'ECKDF.parse+', 'pgpy.packet.fields', "        self.halg = packet[0]\n        del packet[0]\n\n        self.encalg = packet[0]\n        del packet[0]\n\n    def derive_key", "        self.encalg = packet[0]\n        del packet[0]\n\n        self.halg = packet[0]\n        del packet[0]\n\n    def derive_key"),
 ]
 
 
